@@ -96,6 +96,13 @@ def tuple_output():
     r1 = quad(lambda x: f(x)[1], a, b, n=20)
     if not (isinstance(r, tuple) and r[0].shape == r0.shape and r[1].shape == r1.shape and torch.allclose(r[0], r0) and torch.allclose(r[1], r1)):
         return "tuple output is not the component-wise integral"
+    # a coarse rule: the tuple branch must use the requested number of nodes (n = 2 is visibly inexact for sin and x^4)
+    g = lambda x: (x ** 4 * torch.ones(2, dtype=dt), torch.sin(3 * x) * torch.ones(1, 3, dtype=dt))
+    r = quad(g, a, b, n=2)
+    r0 = quad(lambda x: g(x)[0], a, b, n=2)
+    r1 = quad(lambda x: g(x)[1], a, b, n=2)
+    if not (torch.allclose(r[0], r0, rtol=1e-12, atol=1e-14) and torch.allclose(r[1], r1, rtol=1e-12, atol=1e-14)):
+        return "tuple output with n=2 is not the 2-point rule applied component-wise (options lost?): %s vs %s" % (r[0].tolist(), r0.tolist())
 
 
 TABLE = {"numpy_rule_is_gauss_legendre": numpy_rule_is_gauss_legendre, "polynomial_exactness": polynomial_exactness,
